@@ -113,4 +113,45 @@ theorem runtime_overrides (k : Nat) (cfg : Option Int) (N : Nat) (hN : 0 < N) :
     have hm : min k N = k := by omega
     refine ⟨?_, ?_, ?_⟩ <;> simp [effN, clampN, chosenN, randomK, h0, hk, hk', hm] <;> omega
 
+/-! ### the generator factory is built once -/
+
+/-- each of the three stochastic components builds its generator factory exactly once, at the top level of its constructor, from its
+    configured seed, defines no method of that name, and its call method draws from `self._rng_factory(query)` exactly once, outside any loop -/
+theorem factories_built_once :
+    randomSelectorFactoryDepartures = 0 ∧ softmaxRankerFactoryDepartures = 0 ∧ stochasticRankerFactoryDepartures = 0 := by decide
+
+/-- The stretch `(start, length)` of the seeded stream that each of a sequence of calls reads, when the calls consume `ks` numbers: with
+    the factory built once a fixed seed gives one generator that every call continues; were it rebuilt on every call, every call
+    would start the stream again. -/
+def stretches (once : Bool) : Nat → List Nat → List (Nat × Nat)
+  | _, [] => []
+  | pos, k :: ks => (pos, k) :: stretches once (if once then pos + k else pos) ks
+
+/-- built once: the i-th call starts where the calls before it stopped — no two calls read the same numbers -/
+theorem once_continues (pos : Nat) (ks : List Nat) (i : Nat) (hi : i < ks.length) :
+    (stretches true pos ks)[i]? = some (pos + (ks.take i).sum, ks[i]) := by
+  induction ks generalizing pos i with
+  | nil => simp at hi
+  | cons k ks ih =>
+    cases i with
+    | zero => simp [stretches]
+    | succ i =>
+      have hi' : i < ks.length := by simpa using hi
+      simp only [stretches, if_true, List.getElem?_cons_succ, List.take_succ_cons, List.sum_cons, List.getElem_cons_succ]
+      rw [ih (pos + k) i hi']
+      simp [Nat.add_assoc]
+
+/-- rebuilt on every call: every call reads the stream from its start — a selector with a fixed seed would return the same draw each time -/
+theorem remade_repeats (pos : Nat) (ks : List Nat) (i : Nat) (hi : i < ks.length) :
+    (stretches false pos ks)[i]? = some (pos, ks[i]) := by
+  induction ks generalizing i with
+  | nil => simp at hi
+  | cons k ks ih =>
+    cases i with
+    | zero => simp [stretches]
+    | succ i =>
+      have hi' : i < ks.length := by simpa using hi
+      simp only [stretches, Bool.false_eq_true, if_false, List.getElem?_cons_succ, List.getElem_cons_succ]
+      exact ih i hi'
+
 end LK.Gen.GuardsC19
